@@ -68,6 +68,13 @@ func appendIfNotIn(ids []*Identity, chk *Identity) []*Identity {
 // addChildren adds identity r and all of its children to ids
 // deterministically.
 func addChildren(r *Identity, ids []*Identity) []*Identity {
+	for _, id := range ids {
+		if id == r {
+			// Already visited together with its children; this also
+			// ends the walk on a derivation cycle.
+			return ids
+		}
+	}
 	ids = appendIfNotIn(ids, r)
 
 	// Iterate through the values of r.
@@ -185,6 +192,12 @@ func (ms *Modules) resolveIdentities() []error {
 		sort.SliceStable(newValues, func(j, k int) bool {
 			return newValues[j].Name < newValues[k].Name
 		})
+		for _, j := range newValues {
+			if j == i.Identity {
+				errs = append(errs, fmt.Errorf("%s: identity %s is derived from itself", Source(i.Identity), i.Identity.Name))
+				break
+			}
+		}
 		i.Identity.Values = newValues
 	}
 
